@@ -490,6 +490,33 @@ def gate_cases(rng, n):
     return out
 
 
+def cross_cases(rng, n):
+    """commands sent through arbiter A's handle by a task that runs on arbiter B (B's gate task executes the coordinator's sends, so
+    the sender's thread has a current arbiter of its own): while A lives they start on A, in order with everything else sent to A;
+    once A has been stopped and joined they return false and start nowhere"""
+    out = []
+    for r in range(n):
+        a, b = (0, 1) if rng.random() < 0.5 else (1, 0)
+        ops = ["n:" + rng.choice("sf"), "n:" + rng.choice("sf")]
+        ops.append("sp:%d:g:%s" % (b, rng.choice("oh")))
+        ops.append("aw:%d:%d" % (b, len(ops) - 1))
+        last = None
+        for _ in range(rng.randint(1, 4)):
+            ops.append("%s:%d:%s:%s" % ("sf" if rng.random() < 0.6 else "sp", a, rng.choice(["c", "c", "b", "x"]), rng.choice("xxoh")))
+            last = len(ops) - 1
+        if rng.random() < 0.6:
+            ops.append("aw:%d:%d" % (a, last))
+        ops.append("st:%d:%s" % (a, rng.choice("oh")))
+        ops.append("j:%d" % a)
+        for _ in range(rng.randint(1, 3)):
+            ops.append("%s:%d:c:x" % ("sf" if rng.random() < 0.6 else "sp", a))
+        ops.append("st:%d:%s" % (b, rng.choice("oh")))
+        ops.append("j:%d" % b)
+        seed = rng.randrange(1, 10 ** 6) * 4 + r % 4
+        out.append("%s %d %s" % ("R" if r % 4 == 0 else "W", seed, " ".join(ops)))
+    return out
+
+
 def burst_cases(rng, n, flavour):
     """a long backlog: while a gate task keeps an arbiter's thread busy, 33..80 commands are queued for it; then either the last of
     them is awaited and the arbiter stopped and joined (C10: all of them start, in order), or the system is stopped from another
@@ -608,6 +635,7 @@ def check(ctx, pid):
     cases = list(corpus) + battery_cases(ctx.rng, flavour, 40 if quick else 400)
     if flavour == "c10":
         cases += gate_cases(ctx.rng, 150 if quick else 3000)
+        cases += cross_cases(ctx.rng, 60 if quick else 1200)
     if flavour == "c09":
         cases += busy_system_cases(ctx.rng, 120 if quick else 2500)
         cases += sysarb_stopped_cases(ctx.rng, 60 if quick else 1200)
